@@ -79,7 +79,7 @@ class Uses:
 
         versionName = r"(?P<version>%s)" % versionName
 
-        pattern = re.compile(r"^%s$" % self._getKey(productName, versionName))
+        pattern = re.compile(r"^%s$" % self._getKey(re.escape(productName), versionName))
         consumerList = []
         for k in self._setup_by.keys():
             mat = pattern.match(k)
